@@ -1265,3 +1265,33 @@ Proof.
         destruct n; unfold smant; nia. }
       assert (dst_lo Double = - dst_hi Double) by reflexivity. lia.
 Qed.
+(* ---------- rounding: a value of the format is returned unchanged (in value) ---------- *)
+Theorem rne_exact : forall t n m e, is_float t = true ->
+  0 <= m < 2 ^ fprec t -> femin t <= e <= femax t ->
+  exists m' e', rne t n m e = VF n m' e' /\ 0 <= m' < 2 ^ fprec t /\ femin t <= e' <= femax t /\
+                m' * 2 ^ (e' + 1074) = m * 2 ^ (e + 1074).
+Proof.
+  intros t n m e Ht Hm He. unfold rne.
+  assert (Hmin : -1074 <= femin t) by (destruct t; cbn; lia).
+  assert (Hp : 0 < fprec t) by (destruct t; cbn; lia).
+  destruct (m =? 0) eqn:E0.
+  - apply Z.eqb_eq in E0. subst m. exists 0, (femin t). repeat split; try lia.
+  - apply Z.eqb_neq in E0.
+    assert (Hl : Z.log2 m < fprec t) by (apply Z.log2_lt_pow2; lia).
+    cbv zeta.
+    set (e' := Z.max (e + (Z.log2 m + 1) - fprec t) (femin t)).
+    assert (He' : femin t <= e' <= e) by (unfold e'; lia).
+    replace (e' <=? e) with true by (symmetry; lia).
+    replace (femax t <? e') with false by (symmetry; lia).
+    exists (m * 2 ^ (e - e')), e'.
+    assert (Hpow : 0 < 2 ^ (e - e')) by (apply Z.pow_pos_nonneg; lia).
+    split; [reflexivity|]. split; [| split; [lia|]].
+    + split; [nia|].
+      (* m * 2^(e-e') < 2^p : m < 2^(log2 m + 1) and log2 m + 1 + (e - e') <= p *)
+      assert (Hm2 : m < 2 ^ (Z.log2 m + 1)) by (apply Z.log2_spec; lia).
+      assert (H2 : 2 ^ (Z.log2 m + 1) * 2 ^ (e - e') <= 2 ^ fprec t).
+      { rewrite <- Z.pow_add_r by (pose proof (Z.log2_nonneg m); lia).
+        apply Z.pow_le_mono_r; [lia|]. unfold e'. lia. }
+      nia.
+    + rewrite <- Z.mul_assoc. f_equal. rewrite <- Z.pow_add_r by lia. f_equal. lia.
+Qed.
